@@ -210,6 +210,10 @@ func nativeOverlay(pkgPath string, extra []string, tmp string) (string, error) {
 	if err != nil {
 		return "", err
 	}
+	// the native build leaves out the same harness files as the engine did
+	for f := range droppedHarnessFiles {
+		delete(ovSrc, f)
+	}
 	// harness function names
 	var harnessFns []string
 	pkgName := ""
